@@ -4,7 +4,8 @@ CHECKS['C18'] = dict(
          '(derive expansions, CLI and const items included) is the guarded constructor or an in-range constant; the guard is '
          'the closed documented range on the same value; TryFrom/FromStr/Deserialize all delegate to it; reads return the field. '
          'Complete for the stated structural clauses; float parsing itself is std/serde.'
-         ' R18.7: the text route is interpreted on constant witness spellings of the f64 grammar (sign, bare point, exponent, leading zeros): a spelling answered Err before parsing is a route disagreement.',
+         ' R18.7: the text route is interpreted on constant witness spellings of the f64 grammar (sign, bare point, exponent, leading zeros): a spelling answered Err before parsing is a route disagreement.'
+         ' R18.8: str::parse is applied to the input text itself; R18.9: the numeric route accepts witness values of the range (end points, zeros, subnormals).',
     note=ASSUME + '; serde try_from attribute semantics are checked on the expansion, str::parse/serde_json number parsing trusted',
     technique='who-may-construct query + delegation-chain check by abstract interpretation of MIR')
 CHECKS['C07'] = dict(
@@ -13,7 +14,8 @@ CHECKS['C07'] = dict(
          'conditions; RefCell borrow state and Ok/Err typestate tracked exactly), by the key tables of Params::new, by an upper-bound '
          'argument for the NaiveTime operands, by loop classification or a reviewed entry; an undischarged site is a violation. '
          'Panics/hangs that need numeric reasoning (inf/NaN) are not decided.'
-         ' Recursion (R7.4): a self-recursive call needs a ranking argument on the guard that dominates it, bounded over the minute-offset domain.',
+         ' Recursion (R7.4): a self-recursive call needs a ranking argument on the guard that dominates it, bounded over the minute-offset domain.'
+         ' Includes the failure sites of the range APIs (R15.5, R15.3 division-guarded).',
     note=ASSUME + '; inputs finite; Params keeps the keys Params::new inserts; chrono date arithmetic in range for 1600..2399',
     technique='panic-site inventory over the call graph + path-sensitive abstract interpretation (typestate) of MIR')
 CHECKS['C08'] = dict(
@@ -28,7 +30,7 @@ CHECKS['C01'] = dict(
          'modular-angle hygiene of every combination of wrapped angles - differences of the right ascension across days are continuous '
          'for every position of the 360->0 seam (R1.2); the Dhuhr term depends on no method parameter and not on weather. '
          'The 10-second agreement with an independent ephemeris is numeric and is not decided.'
-         ' Includes the clock-time conversion rules R11.4/R11.7 (Dhuhr is reported only if its conversion cannot fail).',
+         ' Includes the clock-time conversion rules R11.4/R11.7 (Dhuhr is reported only if its conversion cannot fail) and R20.1 (the GMT offset enters the Julian Day as exactly -gmt/24).',
     note=ASSUME + '; the Sun\'s RA moves < 1.2 deg/day',
     technique='typestate over skeleton worlds + term-level modular-arithmetic (residue) analysis + dependence (non-interference) on reconstructed terms')
 CHECKS['C05'] = dict(
